@@ -44,7 +44,7 @@ func (x *Ctx) tx(name string, signer int, msg lib.MessageI, fee uint64) *TxMeta 
 
 func (x *Ctx) send(name string, from, to int, amount uint64) *TxMeta {
 	t := x.tx(fmt.Sprintf("%s: send %s->%s amount=%d", name, kn(from), kn(to), amount), from,
-		&fsm.MessageSend{FromAddress: addrOf(from), ToAddress: addrOf(to), Amount: amount}, x.W.Fee)
+		&fsm.MessageSend{FromAddress: addrOf(from), ToAddress: addrOf(to), Amount: amount}, x.W.sendFee())
 	if x.W.Faucet == from {
 		// the faucet creates exactly what is missing for amount+fee (spendable balance = balance: no vesting in this world)
 		if need := amount + x.W.Fee; need > x.bal(from) {
@@ -368,6 +368,10 @@ func Recipes() []Recipe {
 		{Name: "send-vesting(A4->A6 fee over 2 blocks)", Build: func(x *Ctx) Built {
 			return Built{Txs: []*TxMeta{x.tx("vesting send A4->A6", KA4, &fsm.MessageSend{FromAddress: addrOf(KA4), ToAddress: addrOf(KA6), Amount: x.W.Fee,
 				VestingStartHeight: x.H, VestingCliffHeight: x.H, VestingEndHeight: x.H + 2}, x.W.Fee)}}
+		}},
+		// a block whose ONLY transaction sends from an account to itself: nothing else touches the account first
+		{Name: "send-self-only(A5->A5 3)", Build: func(x *Ctx) Built {
+			return Built{Txs: []*TxMeta{x.send("self", KA5, KA5, 3)}}
 		}},
 	}
 }
